@@ -4,9 +4,16 @@
    trace : 1 (outs dump)*     one block per op, see enc_out / dump. *)
 From Coq Require Import List NArith Bool.
 From V.common Require Import Wire.
-From V.Ts Require Import Model.
+From V.Ts Require Import Model Report ReportDead.
 Import ListNotations.
 Open Scope N_scope.
+
+(* identifiers on the wire: values near the top of the usize range (before the counter wraps) are
+   written as 2^41 + (2^64 - id), everything else as itself; wire numbers stay below 2^62 *)
+Definition W40 : N := 1099511627776.
+Definition W41 : N := 2199023255552.
+Definition wid (r : N) : N := if r <? W40 then r else W41 + (ID_MOD - r).
+Definition rid (w : N) : N := if w <? W40 then w else ID_MOD - (w - W41).
 
 Definition p_op : parser (N * ev) :=
   let* dt := pN in
@@ -16,8 +23,8 @@ Definition p_op : parser (N * ev) :=
   | 1 => let* p := pN in let* c := pN in pret (dt, EEst p c)
   | 2 => let* p := pN in let* c := pN in pret (dt, EClosed p c)
   | 3 => let* p := pN in let* c := pN in let* m := pBool in pret (dt, ESubIn p c m)
-  | 4 => let* i := pN in let* m := pBool in pret (dt, ESubOut i m)
-  | 5 => let* i := pN in pret (dt, ESubFail i)
+  | 4 => let* i := pN in let* m := pBool in pret (dt, ESubOut (rid i) m)
+  | 5 => let* i := pN in pret (dt, ESubFail (rid i))
   | 6 => let* p := pN in pret (dt, EDialFail p)
   | 7 => let* p := pN in pret (dt, EOpen p)
   | 8 => let* c := pN in pret (dt, EDropSub c)
@@ -25,6 +32,7 @@ Definition p_op : parser (N * ev) :=
   | 10 => let* c := pN in pret (dt, EOtherDown c)
   | 11 => let* n := pN in pret (dt, EBump n)
   | 12 => let* c := pN in pret (dt, EShutSub c)
+  | 13 => let* p := pN in pret (dt, EOpenFull p)
   | _ => pfail
   end.
 
@@ -39,8 +47,8 @@ Definition small (x : N) : bool := x <? 1000000.
 Definition ev_small (e : ev) : bool :=
   match e with
   | EEst p c | EClosed p c | ESubIn p c _ => small p && small c
-  | ESubOut i _ | ESubFail i => small i
-  | EDialFail p | EOpen p => small p
+  | ESubOut i _ | ESubFail i => small i || ((ID_MOD - 2000000 <? i) && (i <? ID_MOD))
+  | EDialFail p | EOpen p | EOpenFull p => small p
   | EDropSub c | EOtherUp c | EOtherDown c | EShutSub c => small c
   | EBump n => small n
   | ENone => true
@@ -49,9 +57,11 @@ Definition decode_case (l : list N) : option (bool * N * N * list (N * ev)) :=
   match pall (let* ka := pBool in let* T := pN in let* n0 := pN in let* ops := plist p_op in
               pret (ka, T, n0, ops)) l with
   | Some (ka, T, n0, ops) =>
+      (* the start value of the id counter: small, or `k below 2^64` written as 2^40 + k *)
+      let n0r := if n0 <? W40 then n0 else ID_MOD - (n0 - W40) in
       if nodup_b (est_ids ops) && forallb (fun de => ev_small (snd de) && (fst de <? 100000000)) ops
-         && small n0 && (T <? 100000000) && (0 <? T)
-      then Some (ka, T, n0, ops) else None
+         && (small n0 || ((W40 <? n0) && (n0 <? W40 + 1000000))) && (T <? 100000000) && (0 <? T)
+      then Some (ka, T, n0r, ops) else None
   | None => None
   end.
 
@@ -60,11 +70,11 @@ Definition enc_out (o : out) : list N :=
   match o with
   | OEst p => [1; p; 0]
   | OClosed p => [2; p; 0]
-  | OSub p d => [3; p; enc_opt d]
-  | OFail i _ => [4; i; 0]
+  | OSub p d => [3; p; enc_opt (option_map wid d)]
+  | OFail i _ => [4; wid i; 0]
   | ODial p => [5; p; 0]
-  | ORet r i => [6; r; i]
-  | OCmd c i => [7; c; i]
+  | ORet r i => [6; r; wid i]
+  | OCmd c i => [7; c; wid i]
   | OPanic => [8; 0; 0]
   | OSkip => [9; 0; 0]
   | ODown p c => [10; p; c]
@@ -76,7 +86,7 @@ Definition enc_ctx (cx : ctx) : list N :=
   match c_sec cx with Some h => [1; h_id h; b2n (h_act h)] | None => [0; 0; 0] end.
 Definition dump (s : st) : list N :=
   enc_list enc_ctx (sort_by c_peer (s_ctxs s)) ++
-  [s_next s] ++
+  [wid (s_next s)] ++
   enc_list (fun k : key => [fst k; snd k]) (sort_by kkey (map fst (s_last s))) ++
   [N.of_nat (length (s_timers s))] ++
   enc_list (fun x : chan => [ch_id x; b2n (0 <? strong s (ch_id x))]) (sort_by ch_id (s_chans s)).
@@ -95,7 +105,7 @@ Fixpoint run_trace (s : st) (tr : list (N * ev)) : list N :=
       enc_list enc_out (canon_outs os) ++ dump s' ++ run_trace s' t
   end.
 
-Definition run_case (l : list N) : list N :=
+Definition run_case_svc (l : list N) : list N :=
   match decode_case l with
   | Some (ka, T, n0, ops) => 1 :: run_trace (init ka T n0) ops
   | None => [0]
@@ -108,8 +118,8 @@ Inductive tout :=   (* outputs as they appear on the wire (no ghosts) *)
 Definition p_tout : parser tout :=
   let* tag := pN in let* a := pN in let* b := pN in
   match tag with
-  | 1 => pret (TEst a) | 2 => pret (TClosed a) | 3 => pret (TSub a (dec_opt b)) | 4 => pret (TFail a)
-  | 5 => pret (TDial a) | 6 => pret (TRet a b) | 7 => pret (TCmd a b) | 8 => pret TPanic
+  | 1 => pret (TEst a) | 2 => pret (TClosed a) | 3 => pret (TSub a (option_map rid (dec_opt b))) | 4 => pret (TFail (rid a))
+  | 5 => pret (TDial a) | 6 => pret (TRet a (rid b)) | 7 => pret (TCmd a (rid b)) | 8 => pret TPanic
   | 9 => pret TSkip | 10 => pret (TDown a b)
   | _ => pfail
   end.
@@ -124,7 +134,7 @@ Definition p_dump : parser tdump :=
   let* tk := plist (let* p := pN in let* c := pN in pret (p, c)) in
   let* nt := pN in
   let* al := plist (let* c := pN in let* a := pBool in pret (c, a)) in
-  pret (mkD cs nx tk nt al).
+  pret (mkD cs (rid nx) tk nt al).
 Definition p_steps (n : nat) : parser (list (list tout * tdump)) :=
   prep n (let* os := plist p_tout in let* d := p_dump in pret (os, d)).
 
@@ -188,9 +198,10 @@ Definition out8 (live : list key) (n0 : N) (e : ev) (os : list tout) (a : acc8) 
           let prim := hd_error (live_of p live) in
           mkA (a_conn a)
               (a_pend a ++ match prim with Some c => [(i, (p, c))] | None => [] end)
-              (Some i)
-              (a_ok a && mem p (a_conn a) && (n0 <=? i) &&
-               match a_maxid a with Some m => m <? i | None => true end &&
+              (Some ((i + ID_MOD - n0) mod ID_MOD))
+              (a_ok a && mem p (a_conn a) &&
+               (* identifiers advance strictly, counted modulo 2^64 from the start value *)
+               match a_maxid a with Some m => m <? (i + ID_MOD - n0) mod ID_MOD | None => true end &&
                (* the command went to the primary = oldest open connection, with the same id *)
                match prim with
                | Some c => existsb (fun o' => match o' with TCmd c' i' => (c' =? c) && (i' =? i) | _ => false end) os
@@ -201,7 +212,7 @@ Definition out8 (live : list key) (n0 : N) (e : ev) (os : list tout) (a : acc8) 
       end
   | TRet 1 _ =>    (* PeerDoesNotExist only for a peer that is not connected *)
       match e with
-      | EOpen p => mkA (a_conn a) (a_pend a) (a_maxid a) (a_ok a && negb (mem p (a_conn a)))
+      | EOpen p | EOpenFull p => mkA (a_conn a) (a_pend a) (a_maxid a) (a_ok a && negb (mem p (a_conn a)))
       | _ => mkA (a_conn a) (a_pend a) (a_maxid a) false
       end
   | TRet _ _ => a      (* ConnectionClosed: judged against the channel state in step8 *)
@@ -257,6 +268,23 @@ Definition judge_step (cap : nat) (ka : bool) (T n0 : N) (o : ost) (dt : N) (e :
     | ESubFail i => existsb (fun x => match x with TFail j => j =? i | _ => false end) os
     | ESubOut i _ => existsb (fun x => match x with TSub _ (Some j) => j =? i | _ => false end) os
     | ESubIn p c _ => skipped || existsb (fun x => match x with TSub q None => q =? p | _ => false end) os
+    | EOpenFull p =>
+        (* a full command channel: ChannelClogged (or the two earlier refusals), never a command *)
+        existsb (fun x => match x with TRet _ _ => true | _ => false end) os &&
+        forallb (fun x => match x with
+                          | TRet 2 _ => match hd_error (live_of p (o_live o)) with
+                                        | Some c => negb (dump_alive (o_prev o) c)
+                                        | None => false
+                                        end
+                          | TRet 3 _ => match hd_error (live_of p (o_live o)) with
+                                        | Some c => dump_alive (o_prev o) c
+                                        | None => false
+                                        end
+                          | TRet 1 _ => true
+                          | TRet _ _ => false
+                          | TCmd _ _ => false
+                          | _ => true
+                          end) os
     | EOpen p =>
         (* accepted while connected, unless no permit can be had (no strong sender left) *)
         existsb (fun x => match x with TRet _ _ => true | _ => false end) os &&
@@ -286,6 +314,9 @@ Definition judge_step (cap : nat) (ka : bool) (T n0 : N) (o : ost) (dt : N) (e :
                    | _ => None
                    end
                  else None
+    | EOpenFull p =>   (* the refused open still counted as activity on the primary *)
+        if ka && existsb (fun x => match x with TRet 3 _ => true | _ => false end) os
+        then option_map (fun c => (p, c)) (hd_error (live_of p (o_live o))) else None
     | ESubIn _ _ m | ESubOut _ m => if sub_seen && m && ka then anskey else None
     | _ => None
     end in
@@ -364,13 +395,538 @@ Definition judged (case trace : list N) : option ost :=
   | _, _ => None
   end.
 
-Definition prop_ok_C08 (case trace : list N) : bool :=
+Definition prop_ok_C08_svc (case trace : list N) : bool :=
   match decode_case case, trace with
   | None, [0] => true
   | _, _ => match judged case trace with Some o => o_ok8 o | None => false end
   end.
-Definition prop_ok_C09 (case trace : list N) : bool :=
+Definition prop_ok_C09_svc (case trace : list N) : bool :=
   match decode_case case, trace with
   | None, [0] => true
   | _, _ => match judged case trace with Some o => o_ok9 o | None => false end
   end.
+
+(* ====================================================================================
+   report level (case kind 2): the reporting side of ProtocolSet, see Report.v / ReportDead.v
+     case  : 2 nproto cap nops (tag a b c)*
+             tag 1 report_substream_open(conn a, protocol b, direction c = 0 inbound | id+1)
+                 2 report_substream_open_failure(conn a, protocol b, id c)
+                 3 report_connection_established(conn a; b = bit mask of the protocols polled
+                   before the first dead one — only meaningful when a protocol is dead; the
+                   harness fills it in from the table order of the run)
+                 4 report_connection_closed(conn a)    5 protocol a receives up to b events
+                 6 protocol a drops its receiver
+     trace : 2 (code got done qlens nbusy)*
+   ==================================================================================== *)
+Definition p_dop : parser dop :=
+  let* tag := pN in let* a := pN in let* b := pN in let* c := pN in
+  match tag with
+  | 1 => pret (DBase (RSubOpen a b (dec_opt c)))
+  | 2 => pret (DBase (RSubFail a b c))
+  | 3 => pret (DEst a b)
+  | 4 => pret (DBase (RClosed a))
+  | 5 => pret (DBase (RDrain a b))
+  | 6 => pret (DKill a)
+  | _ => pfail
+  end.
+Definition dop_small (o : dop) : bool :=
+  match o with
+  | DBase (RSubOpen c p d) => small c && small p && match d with Some i => small i | None => true end
+  | DBase (RSubFail c p i) => small c && small p && small i
+  | DBase (REst c) | DBase (RClosed c) => small c
+  | DBase (RDrain p k) => small p && (k <? 1000)
+  | DEst c m => small c && (m <? 256)
+  | DKill p => small p
+  end.
+Definition rest_ids (l : list dop) : list N :=
+  flat_map (fun o => match o with DEst c _ => [c] | _ => [] end) l.
+(* a connection reports "established" at most once (ConnectionHandle::downgrade panics otherwise) *)
+Definition decode_rcase (l : list N) : option (nat * nat * list dop) :=
+  match pall (let* kind := pN in let* n := pN in let* cap := pN in let* ops := plist p_dop in
+              pret (kind, n, cap, ops)) l with
+  | Some (kind, n, cap, ops) =>
+      if (kind =? 2) && (1 <=? n) && (n <=? 8) && (1 <=? cap) && (cap <=? 64) && forallb dop_small ops
+         && nodup_b (rest_ids ops)
+      then Some (N.to_nat n, N.to_nat cap, ops) else None
+  | None => None
+  end.
+
+Definition enc_item (i : item) : list N :=
+  match i with
+  | IEst c => [1; c; 0]
+  | IClosed c => [2; c; 0]
+  | IOpened c d => [3; c; enc_opt d]
+  | IFailure _ i => [4; 0; i]
+  end.
+Definition rdump (s : rst) : list N :=
+  enc_list (fun ch => [N.of_nat (length (rq ch))]) (r_ch s) ++ [N.of_nat (length (sort_nodup (waiters s)))].
+Fixpoint drun_trace (d : dst) (l : list dop) : list N :=
+  match l with
+  | [] => []
+  | o :: t =>
+      let '(d', r) := dstep d o in
+      [do_code r] ++ enc_list enc_item (do_got r) ++ enc_list (fun c : N * N => [fst c; snd c]) (do_done r)
+      ++ rdump (d_s d') ++ drun_trace d' t
+  end.
+Definition run_report (l : list N) : list N :=
+  match decode_rcase l with
+  | Some (n, cap, ops) => 2 :: drun_trace (dinit n cap) ops
+  | None => [0]
+  end.
+
+(* ---- the report-level oracle ---- *)
+Definition triple := (N * N * N)%type.
+Definition triple_eqb (a b : triple) : bool :=
+  (fst (fst a) =? fst (fst b)) && (snd (fst a) =? snd (fst b)) && (snd a =? snd b).
+Fixpoint prefix_b (a b : list triple) : bool :=
+  match a, b with
+  | [], _ => true
+  | x :: a', y :: b' => triple_eqb x y && prefix_b a' b'
+  | _ :: _, [] => false
+  end.
+Definition p_triple : parser triple := let* a := pN in let* b := pN in let* c := pN in pret (a, b, c).
+Record rstepobs := mkRS { rs_code : N; rs_got : list triple; rs_done : list (N * N); rs_qlens : list N; rs_busy : N }.
+Definition p_rstep : parser rstepobs :=
+  let* code := pN in let* got := plist p_triple in
+  let* dn := plist (let* c := pN in let* rc := pN in pret (c, rc)) in
+  let* ql := plist pN in let* nb := pN in pret (mkRS code got dn ql nb).
+
+Record rost := mkRO { ro_acc : list (list triple); ro_del : list (list triple); ro_busy : list N;
+                      ro_last : list N; ro_ok : bool;
+                      ro_dead : list N;          (* protocols whose receiver is gone *)
+                      ro_closing : list N;       (* connections whose pending report is "closed" *)
+                      ro_leak : bool;            (* F-C07b: a failed "established" reached a protocol *)
+                      ro_gone : list N }.        (* connections given up after a failed "established" *)
+Definition app_at (n : nat) (x : list triple) (l : list (list triple)) : list (list triple) :=
+  upd n (fun old => old ++ x) l.
+Definition rjudge_step (nproto cap : nat) (o : rost) (op : dop) (ob : rstepobs) : rost :=
+  let is_busy c := mem c (ro_busy o) || mem c (ro_gone o) in
+  let known p := Nat.ltb (N.to_nat p) nproto in
+  let dead p := mem p (ro_dead o) in
+  let anydead := match ro_dead o with [] => false | _ => true end in
+  let started := (rs_code ob =? 0) || (rs_code ob =? 1) in
+  (* the verdict on the result code: a report on a free connection to a live, known protocol is
+     accepted (completed or waiting) — it never fails and is never dropped *)
+  let code_ok :=
+    match op with
+    | DBase (RSubOpen c p _) | DBase (RSubFail c p _) =>
+        if is_busy c then rs_code ob =? 2
+        else if known p && negb (dead p) then started else rs_code ob =? 3
+    | DEst c _ => if is_busy c then rs_code ob =? 2 else if anydead then rs_code ob =? 3 else started
+    | DBase (RClosed c) =>
+        if is_busy c then rs_code ob =? 2 else if anydead then (rs_code ob =? 1) || (rs_code ob =? 3) else started
+    | DBase (RDrain _ _) => rs_code ob =? 0
+    | DBase (REst _) => rs_code ob =? 2
+    | DKill p => if known p && negb (dead p) && match ro_busy o with [] => true | _ => false end
+                 then rs_code ob =? 0 else rs_code ob =? 2
+    end in
+  let free c := negb (is_busy c) in
+  let room p := match nth_error (ro_last o) p with Some q => q <? N.of_nat cap | None => false end in
+  (* which protocols are handed which event *)
+  let acc' :=
+    match op with
+    | DBase (RSubOpen c p d) =>
+        if started then app_at (N.to_nat p) [(3, c, enc_opt d)] (ro_acc o) else ro_acc o
+    | DBase (RSubFail c p i) =>
+        if started then app_at (N.to_nat p) [(4, 0, i)] (ro_acc o) else ro_acc o
+    | DEst c m =>
+        if free c then
+          if anydead
+          then mapi (fun i a => if N.testbit m (N.of_nat i) && negb (dead (N.of_nat i)) && room i
+                                then a ++ [(1, c, 0)] else a) O (ro_acc o)
+          else if started then map (fun a => a ++ [(1, c, 0)]) (ro_acc o) else ro_acc o
+        else ro_acc o
+    | DBase (RClosed c) =>
+        if free c && ((rs_code ob =? 0) || (rs_code ob =? 1) || (rs_code ob =? 3))
+        then mapi (fun i a => if dead (N.of_nat i) then a else a ++ [(2, c, 0)]) O (ro_acc o)
+        else ro_acc o
+    | _ => ro_acc o
+    end in
+  let leak' :=
+    match op with
+    | DEst c m =>
+        free c && anydead &&
+        existsb (fun i => N.testbit m (N.of_nat i) && negb (dead (N.of_nat i)) && room i) (seq 0 nproto)
+    | _ => false
+    end in
+  let del' := match op with
+              | DBase (RDrain p _) => app_at (N.to_nat p) (rs_got ob) (ro_del o)
+              | _ => ro_del o
+              end in
+  (* a killed protocol is out of the accounting from now on *)
+  let killed := match op with DKill p => rs_code ob =? 0 | _ => false end in
+  let acc'' := match op with DKill p => if killed then upd (N.to_nat p) (fun _ => []) acc' else acc' | _ => acc' end in
+  let del'' := match op with DKill p => if killed then upd (N.to_nat p) (fun _ => []) del' else del' | _ => del' end in
+  let dead' := match op with DKill p => if killed then p :: ro_dead o else ro_dead o | _ => ro_dead o end in
+  let got_ok := match op with DBase (RDrain _ _) => true | _ => match rs_got ob with [] => true | _ => false end end in
+  let conn_of := match op with
+                 | DBase (RSubOpen c _ _) | DBase (RSubFail c _ _) | DBase (REst c) | DBase (RClosed c) | DEst c _ => Some c
+                 | _ => None end in
+  let busy1 := match conn_of with
+               | Some c => if rs_code ob =? 1 then c :: ro_busy o else ro_busy o
+               | None => ro_busy o
+               end in
+  let closing1 := match op with
+                  | DBase (RClosed c) => if rs_code ob =? 1 then c :: ro_closing o else ro_closing o
+                  | _ => ro_closing o
+                  end in
+  (* a waiting report completes without error — except "closed" when a protocol is dead *)
+  let done_ok := forallb (fun d : N * N => mem (fst d) busy1 &&
+                            (snd d =? (if anydead && mem (fst d) closing1 then 1 else 0))) (rs_done ob) in
+  let busy2 := filter (fun c => negb (existsb (fun d : N * N => fst d =? c) (rs_done ob))) busy1 in
+  let closing2 := filter (fun c => negb (existsb (fun d : N * N => fst d =? c) (rs_done ob))) closing1 in
+  let ok :=
+    code_ok && got_ok && done_ok &&
+    (* received so far is a prefix of accepted so far, per protocol: in order, no loss, no duplicate *)
+    list_eqb (fun d a => prefix_b d a) del'' acc'' && (Nat.eqb (length del'') (length acc'')) &&
+    forallb (fun q => q <=? N.of_nat cap) (rs_qlens ob) &&
+    (rs_busy ob =? N.of_nat (length busy2)) in
+  let gone' := match op with DEst c _ => if free c && anydead then c :: ro_gone o else ro_gone o | _ => ro_gone o end in
+  mkRO acc'' del'' busy2 (rs_qlens ob) (ro_ok o && ok) dead' closing2 (ro_leak o || leak') gone'.
+Fixpoint rjudge (nproto cap : nat) (o : rost) (ops : list dop) (obs : list rstepobs) : rost :=
+  match ops, obs with
+  | op :: t, ob :: ob' => rjudge nproto cap (rjudge_step nproto cap o op ob) t ob'
+  | _, _ => o
+  end.
+Fixpoint all3 (dead : list N) (i : N) (a d : list (list triple)) (q : list N) : bool :=
+  match a, d, q with
+  | [], [], [] => true
+  | x :: a', y :: d', n :: q' =>
+      (mem i dead || (N.of_nat (length x) =? N.of_nat (length y) + n)) && all3 dead (i + 1) a' d' q'
+  | _, _, _ => false
+  end.
+Definition rjudged (case trace : list N) : option rost :=
+  match decode_rcase case, trace with
+  | Some (n, cap, ops), 2 :: body =>
+      match pall (prep (length ops) p_rstep) body with
+      | Some obs => Some (rjudge n cap (mkRO (repeat [] n) (repeat [] n) [] (repeat 0 n) true [] [] false []) ops obs)
+      | None => None
+      end
+  | _, _ => None
+  end.
+(* the correspondence-independent part: codes, order, no loss, no duplicate *)
+Definition report_sound (case trace : list N) : bool :=
+  match rjudged case trace with
+  | Some o =>
+      ro_ok o &&
+      (* when no report is left waiting: accepted = received + queued, per live protocol *)
+      match ro_busy o with
+      | [] => all3 (ro_dead o) 0 (ro_acc o) (ro_del o) (ro_last o)
+      | _ => true
+      end
+  | None => false
+  end.
+(* the property: additionally, nobody is told "established" for a connection that is given up
+   (and will never be reported closed) *)
+Definition report_ok (case trace : list N) : bool :=
+  match decode_rcase case, trace with
+  | None, [0] => true
+  | _, _ => report_sound case trace && match rjudged case trace with Some o => negb (ro_leak o) | None => false end
+  end.
+(* known class 1 (F-C07b seen from the protocols): the only thing wrong is that leak *)
+Definition report_known (case trace : list N) : N :=
+  if report_sound case trace && match rjudged case trace with Some o => ro_leak o | None => false end
+  then 1 else 0.
+
+(* ====================================================================================
+   composed (case kind 3): real ProtocolSets feed one real TransportService through its real,
+   bounded event channel (capacity 1, so that one poll of the service consumes at most one
+   event and every consumed event can be observed on its own).
+     case  : 3 ka n0 nops (tag a b)*
+             1 report_connection_established(conn b of peer a)   2 report_connection_closed(conn a)
+             3 inbound substream on conn a      4 outbound substream b opened on conn a
+             5 open of substream b on conn a failed               6 the service is polled once
+             7 the protocol calls open_substream(peer a)          8 the protocol drops a substream of conn a
+     trace : 3 |rcase| rcase |rtrace| rtrace |scase| scase |strace| strace
+             where rcase is the report-level case (kind 2, one protocol, capacity 1: the reports,
+             and "receive one event" for every poll), rtrace its trace, scase the service-level
+             case whose inputs are, poll by poll, the event the channel delivered (the model takes
+             them from the report model's run), and strace its trace.
+   The composed trace has to satisfy BOTH oracles.
+   ==================================================================================== *)
+Inductive cop :=
+| CEst (p c : N) | CClosed (c : N) | CSubIn (c : N) | CSubOut (c i : N) | CSubFail (c i : N)
+| CPoll | COpen (p : N) | CDrop (c : N).
+Definition p_cop : parser cop :=
+  let* tag := pN in let* a := pN in let* b := pN in
+  match tag with
+  | 1 => pret (CEst a b) | 2 => pret (CClosed a) | 3 => pret (CSubIn a) | 4 => pret (CSubOut a (rid b))
+  | 5 => pret (CSubFail a (rid b)) | 6 => pret CPoll | 7 => pret (COpen a) | 8 => pret (CDrop a)
+  | _ => pfail
+  end.
+Definition cop_small (o : cop) : bool :=
+  match o with
+  | CEst p c => small p && small c
+  | CClosed c | CSubIn c | CDrop c => small c
+  | CSubOut c i | CSubFail c i => small c && (small i || ((ID_MOD - 2000000 <? i) && (i <? ID_MOD)))
+  | CPoll => true
+  | COpen p => small p
+  end.
+Definition decode_ccase (l : list N) : option (bool * N * list cop) :=
+  match pall (let* kind := pN in let* ka := pBool in let* n0 := pN in let* ops := plist p_cop in
+              pret (kind, ka, n0, ops)) l with
+  | Some (kind, ka, n0, ops) =>
+      if (kind =? 3) && forallb cop_small ops &&
+         nodup_b (flat_map (fun o => match o with CEst _ c => [c] | _ => [] end) ops) &&
+         (small n0 || ((W40 <? n0) && (n0 <? W40 + 1000000)))
+      then Some (ka, n0, ops) else None
+  | None => None
+  end.
+
+(* the report-level case *)
+Definition rop_of (o : cop) : list N :=
+  match o with
+  | CEst _ c => [3; c; 0; 0]
+  | CClosed c => [4; c; 0; 0]
+  | CSubIn c => [1; c; 0; 0]
+  | CSubOut c i => [1; c; 0; i + 1]       (* ids of the composed stream are small or wrap-coded *)
+  | CSubFail c i => [2; c; 0; i]
+  | CPoll => [5; 0; 1; 0]
+  | COpen _ | CDrop _ => []
+  end.
+Definition is_rop (o : cop) : bool := match o with COpen _ | CDrop _ => false | _ => true end.
+Definition rcase_of (ops : list cop) : list N :=
+  [2; 1; 1; N.of_nat (length (filter is_rop ops))] ++ flat_map rop_of ops.
+Definition dop_of (o : cop) : list dop :=
+  match o with
+  | CEst _ c => [DEst c 0]
+  | CClosed c => [DBase (RClosed c)]
+  | CSubIn c => [DBase (RSubOpen c 0 None)]
+  | CSubOut c i => [DBase (RSubOpen c 0 (Some i))]
+  | CSubFail c i => [DBase (RSubFail c 0 i)]
+  | CPoll => [DBase (RDrain 0 1)]
+  | COpen _ | CDrop _ => []
+  end.
+Definition peer_of (ops : list cop) (c : N) : N :=
+  match find (fun o => match o with CEst _ c' => c' =? c | _ => false end) ops with
+  | Some (CEst p _) => p
+  | _ => 0
+  end.
+(* the service-level op of one consumed event *)
+Definition sop_of_item (ops : list cop) (i : item) : list N :=
+  match i with
+  | IEst c => [0; 1; peer_of ops c; c]
+  | IClosed c => [0; 2; peer_of ops c; c]
+  | IOpened c None => [0; 3; peer_of ops c; c; 1]
+  | IOpened _ (Some i) => [0; 4; wid i; 1]
+  | IFailure _ i => [0; 5; wid i]
+  end.
+Fixpoint sops (all : list cop) (d : dst) (ops : list cop) : list N * nat :=
+  match ops with
+  | [] => ([], O)
+  | o :: t =>
+      match o with
+      | COpen p => let '(r, n) := sops all d t in ([0; 7; p] ++ r, S n)
+      | CDrop c => let '(r, n) := sops all d t in ([0; 8; c] ++ r, S n)
+      | _ =>
+          match dop_of o with
+          | [x] =>
+              let '(d', out) := dstep d x in
+              let '(r, n) := sops all d' t in
+              match o with
+              | CPoll => (match do_got out with
+                          | i :: _ => sop_of_item all i
+                          | [] => [0; 0]
+                          end ++ r, S n)
+              | _ => (r, n)
+              end
+          | _ => sops all d t
+          end
+      end
+  end.
+Definition scase_of (ka : bool) (n0 : N) (ops : list cop) : list N :=
+  let '(r, n) := sops ops (dinit 1 1) ops in
+  [b2n ka; 3600000; n0; N.of_nat n] ++ r.
+
+Definition seg (l : list N) : list N := N.of_nat (length l) :: l.
+Definition run_compose (l : list N) : list N :=
+  match decode_ccase l with
+  | Some (ka, n0, ops) =>
+      let rc := rcase_of ops in
+      let sc := scase_of ka n0 ops in
+      3 :: seg rc ++ seg (run_report rc) ++ seg sc ++ seg (run_case_svc sc)
+  | None => [0]
+  end.
+
+(* the oracle: both oracles on the segments the implementation printed, and the two cases are the
+   ones that belong to this composed case *)
+Definition p_seg : parser (list N) := plist pN.
+(* the channel-borne inputs of a service-level history, and the received events of a report
+   trace, in a common form (the connection of an outbound answer is not part of the event) *)
+Definition chan_evs (tr : list (N * ev)) : list triple :=
+  flat_map (fun de => match snd de with
+                      | EEst _ c => [(1, c, 0)]
+                      | EClosed _ c => [(2, c, 0)]
+                      | ESubIn _ c _ => [(3, c, 0)]
+                      | ESubOut i _ => [(3, 0, i + 1)]
+                      | ESubFail i => [(4, 0, i)]
+                      | _ => []
+                      end) tr.
+Definition norm_triple (t : triple) : triple :=
+  match t with
+  | (3, c, d) => if d =? 0 then (3, c, 0) else (3, 0, d)
+  | _ => t
+  end.
+Definition compose_ok (case trace : list N) : bool :=
+  match decode_ccase case, trace with
+  | Some (ka, n0, ops), 3 :: body =>
+      match pall (let* rc := p_seg in let* rt := p_seg in let* sc := p_seg in let* st := p_seg in
+                  pret (rc, rt, sc, st)) body with
+      | Some (rc, rt, sc, st) =>
+          nlist_eqb rc (rcase_of ops) &&
+          report_ok rc rt && prop_ok_C08_svc sc st &&
+          (* every event the service consumed is the one the report side handed over, in order:
+             the inputs of the service-level case are the "received" events of the report trace *)
+          nlist_eqb (firstn 3 sc) [b2n ka; 3600000; n0] &&
+          match rjudged rc rt, decode_case sc with
+          | Some o, Some (_, _, _, tr) =>
+              list_eqb triple_eqb (chan_evs tr) (map norm_triple (nth 0 (ro_del o) []))
+          | _, _ => false
+          end
+      | None => false
+      end
+  | None, [0] => true
+  | _, _ => false
+  end.
+
+(* ====================================================================================
+   end to end (case kind 4, C09): two real nodes A (0) and B (1) over loopback TCP / WebSocket,
+   one connection, a keep-alive user protocol K on both (ping runs next to it as non keep-alive
+   traffic when the header says so). Logical time in slots of 300 ms: the op of slot k happens at
+   300 k after both applications saw ConnectionEstablished, the observation at 300 k + 200; the
+   timeout T is 100 mod 300, so every deadline lies 100 ms from every op and every observation.
+     case  : 4 T ping transport nops (tag a)*
+             tag 0 nothing | 1 K on node a opens a substream (both ends then hold one)
+                 2 node a drops its oldest held substream | 3 node a half-closes its oldest held
+                 substream (shutdown of the write half) and keeps holding it
+     trace : 4 (rc closedA closedB)*      rc: 0 done, 1 not possible
+   Prediction: K's TransportService on either node is the Ts model (connection 1 of peer 0,
+   keep-alive): established at 0; an open is EOpen + the outbound SubstreamOpened on the opener
+   and an inbound SubstreamOpened on the other node; a node's connection task ends when its
+   channel has no strong sender (strong = 0; ping/identify handles are Inactive from T on, before
+   K's), and then both applications are told ConnectionClosed.
+   ==================================================================================== *)
+Definition e2e_step (s : st) (dt : N) (e : ev) : st := fst (step s dt e).
+Record e2e := mkE { e_a : st; e_b : st; e_closed : bool }.
+(* established at 0; the first op is at 300 (the state below is the one at 200) *)
+Definition e2e_init (T : N) : e2e :=
+  let s := e2e_step (e2e_step (init true T 0) 0 (EEst 0 1)) 200 ENone in mkE s s false.
+Definition node_dead (s : st) : bool := strong s 1 =? 0.
+Definition e2e_obs (x : e2e) : e2e :=      (* 200 ms later: timers have fired *)
+  let a := e2e_step (e_a x) 200 ENone in
+  let b := e2e_step (e_b x) 200 ENone in
+  mkE a b (e_closed x || node_dead a || node_dead b).
+(* one slot: the op at +100 after the previous observation, the observation 200 later *)
+Definition e2e_slot (x : e2e) (tag a : N) : e2e * N :=
+  let own (y : e2e) := if a =? 0 then e_a y else e_b y in
+  let oth (y : e2e) := if a =? 0 then e_b y else e_a y in
+  let put (mine other : st) := if a =? 0 then (mine, other) else (other, mine) in
+  if e_closed x then
+    (* nothing left to act on; time still passes *)
+    (e2e_obs (mkE (e2e_step (e_a x) 100 ENone) (e2e_step (e_b x) 100 ENone) true),
+     match tag with 0 => 0 | _ => 1 end)
+  else
+    let '(mine, other, rc) :=
+      match tag with
+      | 1 =>
+          let m1 := step (own x) 100 (EOpen 0) in
+          match filter (fun o => match o with ORet 0 _ => true | _ => false end) (snd m1) with
+          | ORet _ i :: _ =>
+              (e2e_step (fst m1) 0 (ESubOut i true), e2e_step (oth x) 100 (ESubIn 0 1 true), 0)
+          | _ => (fst m1, e2e_step (oth x) 100 ENone, 1)
+          end
+      | 2 =>
+          (e2e_step (own x) 100 (EDropSub 1), e2e_step (oth x) 100 ENone,
+           if 0 <? ch_held_of 1 (s_chans (own x)) then 0 else 1)
+      | 3 =>
+          (e2e_step (own x) 100 (EShutSub 1), e2e_step (oth x) 100 ENone,
+           if 0 <? ch_held_of 1 (s_chans (own x)) then 0 else 1)
+      | _ => (e2e_step (own x) 100 ENone, e2e_step (oth x) 100 ENone, 0)
+      end in
+    let '(na, nb) := put mine other in
+    (e2e_obs (mkE na nb (node_dead na || node_dead nb)), rc).
+Fixpoint e2e_run (x : e2e) (ops : list (N * N)) : list N :=
+  match ops with
+  | [] => []
+  | (tag, a) :: t =>
+      let '(x', rc) := e2e_slot x tag a in
+      [rc; b2n (e_closed x'); b2n (e_closed x')] ++ e2e_run x' t
+  end.
+Definition decode_ecase (l : list N) : option (N * list (N * N)) :=
+  match pall (let* kind := pN in let* T := pN in let* ping := pN in let* tr := pN in
+              let* ops := plist (let* tag := pN in let* a := pN in pret (tag, a)) in
+              pret (kind, T, ping, tr, ops)) l with
+  | Some (kind, T, ping, tr, ops) =>
+      if (kind =? 4) && (T mod 300 =? 100) && (300 <? T) && (T <? 2000) && (ping <? 2) && (tr <? 3) &&
+         forallb (fun o : N * N => (fst o <? 4) && (snd o <? 2)) ops && (N.of_nat (length ops) <? 40)
+      then Some (T, ops) else None
+  | None => None
+  end.
+Definition run_e2e (l : list N) : list N :=
+  match decode_ecase l with
+  | Some (T, ops) => 4 :: e2e_run (e2e_init T) ops
+  | None => [0]
+  end.
+
+(* the property on the observed closing time, stated without the model: per node the time of the
+   last keep-alive activity and the number of keep-alive substreams it holds follow from the case
+   and the observed result codes; the connection is closed at an observation point exactly when
+   some node has nothing held and its last activity is T or more ago *)
+Record eo := mkEO { eo_t : N; eo_lastA : N; eo_lastB : N; eo_heldA : N; eo_heldB : N;
+                    eo_closed : bool; eo_ok : bool }.
+Definition e2e_judge_slot (T : N) (o : eo) (tag a rc ca cb : N) : eo :=
+  let t := eo_t o + 100 in                (* op time *)
+  let did := (rc =? 0) && negb (eo_closed o) in
+  let lastA := if did && (tag =? 1) then t else eo_lastA o in
+  let lastB := if did && (tag =? 1) then t else eo_lastB o in
+  let heldA := if did then
+                 if tag =? 1 then eo_heldA o + 1
+                 else if (tag =? 2) && (a =? 0) then eo_heldA o - 1 else eo_heldA o
+               else eo_heldA o in
+  let heldB := if did then
+                 if tag =? 1 then eo_heldB o + 1
+                 else if (tag =? 2) && (a =? 1) then eo_heldB o - 1 else eo_heldB o
+               else eo_heldB o in
+  let tobs := t + 200 in
+  let idleA := (heldA =? 0) && (lastA + T <=? tobs) in
+  let idleB := (heldB =? 0) && (lastB + T <=? tobs) in
+  let should := eo_closed o || idleA || idleB in
+  let seen := negb (ca =? 0) in
+  mkEO tobs lastA lastB heldA heldB seen
+       (eo_ok o && (ca =? cb) &&
+        (* never before last activity + T, never while both ends hold a keep-alive substream *)
+        (if seen then should else true) &&
+        (* closed once the timeout has elapsed *)
+        (if should then seen else true) &&
+        (* an open on a live connection is accepted, drops/half-closes need something held *)
+        (if eo_closed o then true
+         else if tag =? 1 then rc =? 0
+         else if tag =? 0 then rc =? 0
+         else Bool.eqb (rc =? 0) (0 <? (if a =? 0 then eo_heldA o else eo_heldB o)))).
+Fixpoint e2e_judge (T : N) (o : eo) (ops : list (N * N)) (tr : list N) : bool :=
+  match ops, tr with
+  | [], [] => eo_ok o
+  | (tag, a) :: ops', rc :: ca :: cb :: tr' => e2e_judge T (e2e_judge_slot T o tag a rc ca cb) ops' tr'
+  | _, _ => false
+  end.
+Definition e2e_ok (case trace : list N) : bool :=
+  match decode_ecase case, trace with
+  | Some (T, ops), 4 :: body => e2e_judge T (mkEO 200 0 0 0 0 false true) ops body
+  | None, [0] => true
+  | _, _ => false
+  end.
+
+(* ---- dispatch on the case kind ---- *)
+Definition run_case (l : list N) : list N :=
+  match l with 2 :: _ => run_report l | 3 :: _ => run_compose l | 4 :: _ => run_e2e l | _ => run_case_svc l end.
+Definition prop_ok_C08 (case trace : list N) : bool :=
+  match case with
+  | 2 :: _ => report_ok case trace
+  | 3 :: _ => compose_ok case trace
+  | 4 :: _ => true
+  | _ => prop_ok_C08_svc case trace
+  end.
+Definition prop_ok_C09 (case trace : list N) : bool :=
+  match case with 2 :: _ | 3 :: _ => true | 4 :: _ => e2e_ok case trace | _ => prop_ok_C09_svc case trace end.
+Definition known_class_C08 (case trace : list N) : N :=
+  match case with 2 :: _ => report_known case trace | _ => 0 end.
